@@ -349,6 +349,15 @@ def _close(got, exp, decimals):
 
 def compare_file(tag, path, expected, fmt):
     from worlds.c18 import quiet_io, same_bits
+    if callable(expected):
+        # derived comparison: expected(path) -> None or a description of the disagreement
+        with quiet_io():
+            if not os.path.exists(path):
+                raise Violation(f"C18/I3-file-vs-returned:{tag}:{fmt}", f"the requested output file {path} was not written")
+            why = expected(path)
+        if why:
+            raise Violation(f"C18/I3-file-vs-returned:{tag}:{fmt}", f"{path} does not hold the returned values: {why}")
+        return
     kind = fmt.split(":")[0]
     sig = f"C18/I3-file-vs-returned:{tag}:{kind}"
     with quiet_io():
